@@ -18,7 +18,7 @@ from .common import *
 LEVEL = 'other'
 EXHAUSTIVE = True
 EXPLANATION = ('Control-dependence rules on the replay loop of Game::can_declare_draw: every reset of the half-move counter and '
-               'every clear of the repetition list is attributed to its controlling conditions; threshold and increment shapes; '
+               'every clear of the repetition list is attributed to its controlling conditions (a castling-rights change must compare one colour on the boards before and after the move); threshold and increment shapes; '
                'structure of the nested repetition search; entry identity of the list.')
 NOT_DECIDED = 'that (hash, move list) identity coincides with position identity (64-bit collisions)'
 
